@@ -209,6 +209,7 @@ type faultPlan struct {
 	set     faultSet
 	applied []string // class:outcome of every fault served since arm
 	lastSnapFault bool // the most recent snapshot request was answered with a fault
+	lastStreamOK  bool // the most recent stream request was relayed to the real handler
 }
 
 func (p *faultPlan) arm(f faultSet) {
@@ -216,6 +217,7 @@ func (p *faultPlan) arm(f faultSet) {
 	p.set = faultSet{Stream: append([]int(nil), f.Stream...), Snap: append([]int(nil), f.Snap...), Pos: f.Pos}
 	p.applied = nil
 	p.lastSnapFault = false
+	p.lastStreamOK = len(f.Stream) == 0 && len(f.Snap) == 0 // disarming keeps whatever stream there is
 	p.mu.Unlock()
 }
 
@@ -228,6 +230,7 @@ func (p *faultPlan) next(class string) (int, int) {
 		if len(p.set.Stream) > 0 {
 			o, p.set.Stream = p.set.Stream[0], p.set.Stream[1:]
 		}
+		p.lastStreamOK = !isFault(o)
 	case clsSnap:
 		if len(p.set.Snap) > 0 {
 			o, p.set.Snap = p.set.Snap[0], p.set.Snap[1:]
@@ -246,10 +249,13 @@ func (p *faultPlan) state() (applied []string, lastSnapFault bool, pending int) 
 	return append([]string(nil), p.applied...), p.lastSnapFault, len(p.set.Stream) + len(p.set.Snap)
 }
 
-func (p *faultPlan) pendingStream() int {
+// streamGenuine: the most recent stream request was relayed to the real handler (ok or delayed), i.e. a
+// standby that reports connected sits on a real stream.  (Queued stream faults may stay unserved for good:
+// a standby whose first attempt succeeds never asks again.)
+func (p *faultPlan) streamGenuine() bool {
 	p.mu.Lock()
 	defer p.mu.Unlock()
-	return len(p.set.Stream)
+	return p.lastStreamOK
 }
 
 // faultyHandler puts a faultPlan in front of a handler.
